@@ -29,8 +29,8 @@ def script_ops(n, used):
 
 def loop_kinds(flavour):
     if flavour in DIRECTED:
-        return ['iter_out', 'iter_in', 'into_iter', 'collect_out', 'collect_in']
-    return ['iter', 'into_iter', 'collect_adj']
+        return ['iter_out', 'iter_in', 'into_iter', 'collect_out', 'collect_in', 'fold_out', 'fold_in']
+    return ['iter', 'into_iter', 'collect_adj', 'fold_adj']
 
 
 def traversals(flavour, tier):
@@ -125,7 +125,7 @@ def run(prop, tier, seed):
         prop, tier, seed, items, evaluate, sig_of,
         bounds={'nodes': 3, 'max_edges': 2 if tier == 'quick' else 3, 'script_length': '1 (and two connects on <=1-edge graphs)' if tier == 'quick' else '1 (and 2 on <=1-edge graphs)',
                 'fires_at_step': [0, 1] if tier == 'quick' else [0, 1, 2],
-                'loops': 'iter_out, iter_in, iter, for .. in &node, and `.map(..).collect()` over the edge iterators (std consults size_hint there); bfs/dfs/pfs search_path, dfs search_cycle, pre/postorder with for_each; bfs with filter',
+                'loops': 'iter_out, iter_in, iter, for .. in &node, `.map(..).collect()` over the edge iterators (std consults size_hint there) and `.for_each(..)` (internal iteration: through the own `fold` of the iterator type when it has one); bfs/dfs/pfs search_path, dfs search_cycle, pre/postorder with for_each; bfs with filter',
                 'scripted_ops': 'connect, try_connect, disconnect, isolate on any nodes; degree/predicate/lookup queries; nested bfs; clone+drop',
                 'symbolic': 'edge values', 'outside': 'container operations inside loops; longer scripts; scripts firing more than once'},
         assumptions=['std models of engine A', 'the script fires once, so the closure stops adding edges by construction'],
